@@ -31,7 +31,7 @@ Verdict(e) ==
   ELSE IF e.kind = "ccube" /\ e.sels # e.labels THEN "X00:label-names-other-data"
   ELSE "ok"
 
-TInit == i \in 1..Len(Trace) /\ verdict = "init" /\ ex = <<>> /\ region = <<>> /\ pc = <<>> /\ oob = FALSE
+TInit == i \in 1..Len(Trace) /\ verdict = "init" /\ ex = <<>> /\ tasks = <<>> /\ region = <<>> /\ pc = <<>> /\ oob = FALSE /\ shared = <<>> /\ view = <<>>
 TNext == /\ verdict = "init"
          /\ verdict' = Verdict(Trace[i])
          /\ PrintT(<<"V", Trace[i].tid, verdict'>>)
